@@ -389,7 +389,9 @@ class Charge:
         """Convert into a `DataArray` object."""
         import xarray as xr
 
-        data_2d: np.ndarray = self.array
+        # Copy the values (like the other containers): 'self.array' can be the array
+        # that 'add_charge_array' modifies in place
+        data_2d: np.ndarray = np.array(self.array)
         num_rows, num_cols = data_2d.shape
 
         rows = xr.DataArray(
